@@ -11,6 +11,6 @@ def main (args : List String) : IO UInt32 :=
   driverMain [
     mkEntryH "routine" Routine.model Routine.Obs.parse
       [MonEntry.ofMonitor "C04" Routine.monC04,
-       MonEntry.ofMonitor "C05" Routine.monC05, MonEntry.ofMonitor "C14h" Routine.monC14h, MonEntry.ofMonitor "C14" Routine.monC14, MonEntry.ofMonitor "C14w" Routine.monC14w, MonEntry.ofMonitor "C14cb" Routine.monC14cb] (cap := 20000),
+       MonEntry.ofMonitor "C05" Routine.monC05, MonEntry.ofMonitor "C14h" Routine.monC14h, MonEntry.ofMonitor "C14" Routine.monC14, MonEntry.ofMonitor "C14w" Routine.monC14w, MonEntry.ofMonitor "C14cb" Routine.monC14cb, MonEntry.ofMonitor "C14rc" Routine.monC14rc] (cap := 20000),
     mkEntry "backoff" Routine.Backoff.model Routine.Backoff.Obs.parse [MonEntry.ofMonitor "C14bo" Routine.Backoff.monC14bo]
   ] args
